@@ -63,7 +63,7 @@ impl Prop for Repair {
         "fault_enumeration"
     }
     fn rule(&self) -> String {
-        let common = "run = one seeded valid writer history (as C01, with flushes, block-lookalike content on some runs, 65..200 files with long-lived open ones on one run in 20, 17..1000 recipients on one encrypted run in 20) written to the simulated sink; crash fault = the sink dies after n accepted bytes, i.e. the stored image is the first n bytes. On s0/s1 images up to 2600 bytes EVERY n in 0..=len is taken (exhaustive in the crash point for the workloads visited); on larger images windows of +-20 bytes around every structural anchor of the layout map (header end, every chunk payload/tag edge, every compressed-block edge, every file-layer block, end marker, index) plus a seeded sample; the first 24 (thorough: 240) runs use production constants and one content block longer than the 8 MiB repair copy buffer, and SEARCH the crash point (bisection on the recovered length) at which the bytes recovered from that block end exactly on the buffer edge, then judge the 7 cuts around it. The run after those (thorough: the six after) holds 33000..70000 tiny files - ids beyond 2^15 and 2^16 - and is repaired undamaged and at three seeded cuts. Each cut image is repaired in authenticated and unauthenticated mode through the simulated source with a step budget, and the produced archive is read back with the normal reader. evaluations = repairs judged; distinct_nontrivial = distinct (variant, layers, mode, region class of the cut, anchor?, stop status, unfinished?) signatures.";
+        let common = "run = one seeded valid writer history (as C01, with flushes, block-lookalike content on some runs, 65..200 files with long-lived open ones on one run in 20, 17..1000 recipients on one encrypted run in 20) written to the simulated sink; crash fault = the sink dies after n accepted bytes, i.e. the stored image is the first n bytes. On s0/s1 images up to 2600 bytes EVERY n in 0..=len is taken (exhaustive in the crash point for the workloads visited); on larger images windows of +-20 bytes around every structural anchor of the layout map (header end, every chunk payload/tag edge, every compressed-block edge, every file-layer block, end marker, index) plus a seeded sample; the first 24 (thorough: 240) runs use production constants and one content block longer than the 8 MiB repair copy buffer, and SEARCH the crash point (bisection on the recovered length) at which the bytes recovered from that block end exactly on the buffer edge, then judge the 7 cuts around it. The run after those (thorough: the six after) holds 33000..70000 tiny files - ids beyond 2^15 and 2^16 - and is repaired undamaged and at three seeded cuts. One scaled run in 12 takes the same files in an archive of the INDEPENDENT writer (file ids not 0,1,2.. but from 1, large, or decreasing; an index listing every block; empty content blocks; a trailing empty compressed block). Each cut image is repaired in authenticated and unauthenticated mode through the simulated source with a step budget, and the produced archive is read back with the normal reader. evaluations = repairs judged; distinct_nontrivial = distinct (variant, layers, mode, region class of the cut, anchor?, stop status, unfinished?) signatures.";
         if self.id == "C02" {
             format!("{common} Clauses: no panic/budget overrun; for n >= header length from_config and convert_to_archive return Ok; repaired archive opens and reads back with consistent size/hash; names subset of original; every recovered file is a prefix of the original; files not reported unfinished are complete; EndOfOriginalArchiveData only if everything was recovered.")
         } else {
@@ -235,6 +235,9 @@ impl Prop for Repair {
             case.params.insert("window".into(), 18);
         }
         case.params.insert("cut_seed".into(), (rng.u64() >> 1) as i64);
+        if !big && !crowd_of_files && rng.chance(1, 12) {
+            case.params.insert("foreign".into(), 1);
+        }
         case
     }
     fn exec(&self, case: &Case, ctx: &mut Ctx) -> Vec<Violation> {
@@ -251,7 +254,10 @@ impl Prop for Repair {
             return v;
         }
         let model = model_of(&case.ops);
-        let image = sink.data();
+        // one scaled run in 12: the same files in an archive of the independent writer (ids not 0.., every block
+        // listed, empty blocks...): every clause holds for any valid archive, not only for those the library writes
+        let foreign = case.param("foreign", 0) == 1 && model.order.iter().all(|n| n.len() <= 65536) && model.order.len() == model.files.len();
+        let image = if foreign { foreign_image(&case.cfg, &model, chunk, block, case.param("cut_seed", 1) as u64 ^ 0xF0) } else { sink.data() };
         let len = image.len();
         let hlen = header_len(&case.cfg);
         let lay = layout_of(&image, &case.cfg, chunk, block).ok();
